@@ -256,7 +256,9 @@ func (t *tcpPacketConn) readFromContext(ctx context.Context, b []byte) (int, net
 		return 0, pkt.RAddr, pkt.Err
 	}
 
-	if cap(b) < len(pkt.Data) {
+	// copy fills at most len(b) bytes: a packet that does not fit there must not
+	// be reported as read in full.
+	if len(b) < len(pkt.Data) {
 		return 0, pkt.RAddr, io.ErrShortBuffer
 	}
 
